@@ -50,6 +50,35 @@ def str (j : Json) (k : String) : Except String Str := do
   let s ← v.getStr?
   pure s.toList
 
+/-- a value returned by `ast.literal_eval`, sent by the harness as a tree (`lit_tree_of`); atoms carry no payload except
+    `int`: `big` = its decimal representation has more than 4300 digits (what `json.dumps` refuses) -/
+partial def litOfJson (j : Json) : Except String Lit := do
+  let k ← (← j.getObjVal? "k").getStr?
+  let xs : Except String (List Lit) := do
+    let a ← (← j.getObjVal? "xs").getArr?
+    a.toList.mapM litOfJson
+  match k with
+  | "none" => pure .none
+  | "bool" => pure (.bool true)
+  | "int" => pure (.int (if (j.getObjVal? "big").toOption == some (Json.bool true) then Int.ofNat Lit.intStrLimit else 0))
+  | "float" => pure (.float [])
+  | "str" => pure (.str [])
+  | "bytes" => pure (.bytes [])
+  | "complex" => pure (.complex [])
+  | "ellipsis" => pure .ellipsis
+  | "list" => return .list (← xs)
+  | "tuple" => return .tuple (← xs)
+  | "set" => return .set (← xs)
+  | "dict" => do
+    let a ← (← j.getObjVal? "kvs").getArr?
+    let kvs ← a.toList.mapM fun kv => do
+      let p ← kv.getArr?
+      match p.toList with
+      | [a, b] => return (← litOfJson a, ← litOfJson b)
+      | _ => throw "bad key/value pair"
+    return .dict kvs
+  | s => throw s!"not a literal_eval value: {s}"
+
 def singleCallJson (r : SingleCall) : Json :=
   Json.mkObj [("user_intent", js r.userIntent), ("bot_intent", js r.botIntent), ("bot_message", js r.botMessage)]
 
@@ -189,10 +218,21 @@ def handle (op : String) (j : Json) : Except String Json := do
       -- the wrapper around literal_eval, driven with literal_eval's OBSERVED behaviour ("raised" | "plain" | "nonplain")
       ("value_v2_wrapper",
         let lk := (optStr j "lit").getD "raised"
-        let le : Str → Except Unit Lit := fun _ => if lk == "plain" then .ok (.str []) else if lk == "nonplain" then .ok .ellipsis else .error ()
+        -- the literal `literal_eval` returned on this text, as a tree (absent: the observed class only)
+        let tree : Option Lit := match j.getObjVal? "lit_tree" with
+          | .ok t => (litOfJson t).toOption
+          | _ => none
+        let le : Str → Except Unit Lit := fun _ =>
+          if lk == "raised" then .error () else
+          match tree with
+          | some x => .ok x
+          | none => if lk == "plain" then .ok (.str []) else .ok .ellipsis
         let show_ := fun (r : Except GenValueErr Lit) => match r with
           | .ok _ => "ok" | .error (.invalidLlmResponse _) => "invalid" | .error (.py _) => "py"
-        Json.mkObj [("as_is", Json.str (show_ (generateValueV2 le p lpl s))), ("repaired", Json.str (show_ (generateValueV2R le p lpl s)))]),
+        Json.mkObj [("as_is", Json.str (show_ (generateValueV2 le p lpl s))), ("repaired", Json.str (show_ (generateValueV2R le p lpl s))),
+          ("storable_repair", Json.str (show_ (generateValueV2S le p lpl s))),
+          ("is_plain", match tree with | some x => Json.bool x.isPlain | none => Json.null),
+          ("storable", match tree with | some x => Json.bool x.storable | none => Json.null)]),
       ("user_intent_v2", js (orUnknownIntent (escapeFlowNameU (stripChars [' '] (match (match getFirstNonemptyLine (p.apply s) with
           | some u => if !u.isEmpty && contains [':'] u then (match getFirstUserIntent [u] with | some t => if !t.isEmpty then some t else none | none => none) else some u
           | none => none) with | none => userWasUnclear | some u => u)))))
